@@ -385,6 +385,8 @@ private:
     fraction<uint64_t> m_invDeltaTicks;
     //! Current tempo
     fraction<uint64_t> m_tempo;
+    //! Tempo the song starts with (in force until the first tempo change event)
+    fraction<uint64_t> m_tempoAtBegin;
 
     //! Tempo multiplier factor
     double  m_tempoMultiplier;
